@@ -15,6 +15,11 @@ def run(cmd, **kw):
     return subprocess.run(cmd, capture_output=True, text=True, **kw)
 
 
+def pyenv(wt):
+    """demo programs must import the worktree's mouette, not the editable install of /repo"""
+    return dict(os.environ, PYTHONPATH=wt)
+
+
 def suite_pass_set(wt):
     xmlp = wt + ".junit.xml"
     run(["/venv/bin/python", "-m", "pytest", "-q", "-p", "no:cacheprovider", "-n", os.environ.get("SEED_PYTEST_JOBS", "8"), "--timeout=900",
@@ -34,7 +39,7 @@ def main():
     assert run(["git", "-C", "/repo", "worktree", "add", "-f", "--detach", wt, "HEAD"]).returncode == 0
     ok, log = True, {}
     try:
-        r = run(["/venv/bin/python", "-B", os.path.join(src, "demo.py")], cwd=wt, timeout=900)
+        r = run(["/venv/bin/python", "-B", os.path.join(src, "demo.py")], cwd=wt, timeout=900, env=pyenv(wt))
         log["demo_exit_unchanged"] = r.returncode
         if r.returncode != 0:
             ok = False; log["demo_unchanged_output"] = (r.stdout + r.stderr)[-500:]
@@ -42,7 +47,7 @@ def main():
         if r.returncode != 0:
             ok = False; log["apply_error"] = r.stderr[-300:]
         else:
-            r = run(["/venv/bin/python", "-B", os.path.join(src, "demo.py")], cwd=wt, timeout=900)
+            r = run(["/venv/bin/python", "-B", os.path.join(src, "demo.py")], cwd=wt, timeout=900, env=pyenv(wt))
             log["demo_exit_with_change"] = r.returncode
             log["demo_output_with_change"] = (r.stdout + r.stderr)[-400:]
             if r.returncode == 0:
